@@ -1,7 +1,6 @@
 //! sim_world: reactive contexts, simulated clients and a simulated SSR server on one seeded task executor.
 //! Builds: world_ssr (shipped server configuration), world_fx (ssr + reactive_graph/effects: Effect and
-//! RenderEffect tasks really run), world_dyn (ssr + dynamic_load, for the embedded translations script),
-//! world_nc (cookie feature off), world_ax (effects + the library's axum feature: default request getters).
+//! RenderEffect tasks really run), world_dyn (ssr + dynamic_load, for the embedded translations script).
 #![allow(clippy::all)]
 leptos_i18n::load_locales!();
 
@@ -387,9 +386,8 @@ fn check(args: &[String]) -> i32 {
         json!({"component": "leptos_i18n (context, sub-context, scopes, fetch_locale, generated accessors and providers, RegisterCtx)", "status": "real, /repo working tree"}),
         json!({"component": "leptos 0.7.8 reactive_graph / tachys streaming / leptos_meta / leptos-use ssr paths (use_cookie, use_locales)", "status": "real, pinned by /repo/Cargo.lock"}),
         json!({"component": "async executor", "status": "simulator (seeded; any_spawner custom executor)"}),
-        json!({"component": "HTTP server, browser, cookie store, request headers", "status": "simulator (headers and Set-Cookie through the injectable closures, or through Parts / ResponseOptions in the world_ax build; HTML reassembled by the harness)"}),
+        json!({"component": "HTTP server, browser, cookie store, request headers", "status": "simulator (headers and Set-Cookie through the injectable closures; HTML reassembled by the harness)"}),
         json!({"component": "wasm client (csr/hydrate paths, router effects)", "status": "not run"}),
-        json!({"component": "world_ax build", "status": "hybrid: world_fx + the library's `axum` feature; the request is an http::request::Parts in the reactive context and Set-Cookie goes to leptos_axum::ResponseOptions (real leptos-use default getters, real leptos_axum types; no axum server)"}),
         json!({"component": "world_fx build", "status": "hybrid: server seams + reactive_graph/effects forced on, so Effect/RenderEffect logic of leptos_i18n executes natively"}),
     ];
     ev.assumptions = vec![
